@@ -204,7 +204,11 @@ class Builder:
         if k == "vfn":
             return getattr(ox, "abs_" if n[1] == "abs" else n[1])(self.V(n[2]))
         if k == "mv":
-            return np.array(n[1], dtype=float) @ self.V(n[2])
+            v = self.V(n[2])
+            if isinstance(v, ox.VectorVariable):
+                return np.array(n[1], dtype=float) @ v
+            # `2-D array @ VectorExpression` is not an operator form of the API; the public function is
+            return ox.matmul(np.array(n[1], dtype=float), v)
         if k == "Mv":
             return self.M(n[1]) @ self.V(n[2])
         if k == "velems":
